@@ -116,7 +116,7 @@ def h_apply(n: int, k: int, s1: int, r1: int, s2: int, r2: int, t2: bool,
     return _core(s, n, sigma, op_sigma, so, c, d, top)
 
 
-def h_apply3(n: int, s1: int, r1: int, s2: int, r2: int, s3: int, r3: int, so: int, c: int, d: int, top: bool,
+def h_apply3(n: int, s1: int, r1: int, s2: int, r2: int, s3: int, r3: int, so: int, rr: int, top: bool,
              sig=(0, 1, 2), op_sigma=(4,)):
     """Three builder steps (two settings carried over + one starting at the range start is the smallest such receiver)."""
     sigma = SIGMA[:5]
@@ -128,7 +128,10 @@ def h_apply3(n: int, s1: int, r1: int, s2: int, r2: int, s3: int, r3: int, so: i
         return None
     if b1_step(s, n, s3, r3, True, sub) is None:
         return None
-    return _core(s, n, sigma, op_sigma, so, c, d, top)
+    rg = choose(rr, ranges(n))          # canonical range (the all-integer bounds are covered on 1- and 2-step receivers)
+    if rg is None:
+        return None
+    return _core(s, n, sigma, op_sigma, so, rg[0], rg[1], top)
 
 
 def h_empty_settings(n: int, s1: int, r1: int, which: int, c: int, d: int, top: bool):
@@ -225,7 +228,7 @@ def obligations(tier):
                               kinds=KINDS))
         for s1 in range(3):
             obs.append(Ob('apply/b3/n3/s%d' % s1, h_apply3, dict(n=3, s1=s1, r1=2), need=('nonempty',), budget=900,
-                          bounds='n=3, 3 builder steps over (red, blue, bold), first on the whole text; new setting underline', kinds=KINDS))
+                          bounds='n=3, 3 builder steps over (red, blue, bold), first on the whole text; new setting underline on every canonical range', kinds=KINDS))
         obs.append(Ob('empty-settings/n2', h_empty_settings, dict(n=2), need=('empty-settings',), budget=200,
                       bounds='n=2', kinds=KINDS))
         obs.append(Ob('multi/n2', h_multi, dict(n=2), need=('nonempty', 'multi-conflict'), budget=600, bounds='n=2, 3 two-setting lists', kinds=KINDS))
